@@ -344,19 +344,18 @@ impl<A: Send + 'static> Stream<A> {
                 &sodium_ctx,
                 NodeName::STREAM_MERGE,
                 move || {
-                    self_.with_firing_op(|firing1_op: &mut Option<A>| {
-                        s2.with_firing_op(|firing2_op: &mut Option<A>| {
-                            if let Some(ref firing1) = firing1_op {
-                                if let Some(ref firing2) = firing2_op {
-                                    s.unwrap()._send(f.call(firing1, firing2));
-                                } else {
-                                    s.unwrap()._send(firing1.clone());
-                                }
-                            } else if let Some(ref firing2) = firing2_op {
-                                s.unwrap()._send(firing2.clone());
-                            }
-                        })
-                    })
+                    // read the two firings one after the other: the inputs may be the same stream
+                    let firing1_op = self_.with_firing_op(|firing_op: &mut Option<A>| firing_op.clone());
+                    let firing2_op = s2.with_firing_op(|firing_op: &mut Option<A>| firing_op.clone());
+                    if let Some(ref firing1) = firing1_op {
+                        if let Some(ref firing2) = firing2_op {
+                            s.unwrap()._send(f.call(firing1, firing2));
+                        } else {
+                            s.unwrap()._send(firing1.clone());
+                        }
+                    } else if let Some(ref firing2) = firing2_op {
+                        s.unwrap()._send(firing2.clone());
+                    }
                 },
                 vec![self.box_clone(), s2_node],
             );
